@@ -760,7 +760,11 @@ func (s *c20State) opOpen() {
 	}()
 	if panicked != "" {
 		s.out("O panic")
-		s.fail("", "NewEngineFacade panicked: "+panicked)
+		class := ""
+		if stored != nil && stored.MaxMemTables > 1<<40 && strings.Contains(panicked, "makeslice") {
+			class = "unbounded_max_memtables_panics_open"
+		}
+		s.fail(class, "NewEngineFacade panicked on a stored configuration that passes validation: "+panicked)
 		return
 	}
 	if err != nil {
